@@ -76,7 +76,11 @@ func c05IOAux(c *mon.Ctx) {
 		}
 	}
 	nDir := directedCount(c)
-	for k := 0; k < nDir; k += 17 {
+	tail := len(sanSeeds)*2 + genPoolSize() // SAN-sibling and generated-pool families: complete
+	for k := 0; k < nDir; k++ {
+		if k%17 != 0 && k < nDir-tail {
+			continue
+		}
 		if o, _ := directedCase(c, k); o != nil {
 			objs = append(objs, o)
 		}
